@@ -611,6 +611,9 @@ func (ob *Obligation) Solve(timeoutS int, keepScript bool) *SolveResult {
 		return &SolveResult{Status: "error", Output: ob.RawErr}
 	}
 	if ob.Trivial && !ob.Cover {
+		if ob.Discipline {
+			return &SolveResult{Status: "unsat", Solver: "append-discipline", Seconds: 0}
+		}
 		return &SolveResult{Status: "unsat", Solver: "simplifier", Seconds: 0}
 	}
 	if ob.Cover && ob.Goal.IsTrue() {
